@@ -136,10 +136,29 @@ SetCell(c, p) == /\ mode = "table"
                  /\ step' = IF Walk THEN Out(table') ELSE ""
                  /\ UNCHANGED <<mode, q>>
 
+\* Import of a table in which the whole row of user u has moved to user v, who had none (a reload that swaps one user
+\* for another: the number of users stays the same, u is gone). Walks only: it changes several cells at once, and the
+\* exhaustive configs state Isolation per single changed cell. (seeded change C35e: a reload that keeps the rows of
+\* users the new document no longer has, unless the document got shorter)
+MoveRow(u, v) == /\ mode = "table"
+                 /\ u # v
+                 /\ \E s \in TS : table[<<u, s>>] # Absent
+                 /\ \A s \in TS : table[<<v, s>>] = Absent
+                 /\ table' = [c \in Cells |-> IF c[1] = v THEN table[<<u, c[2]>>]
+                                              ELSE IF c[1] = u THEN Absent ELSE table[c]]
+                 /\ step' = IF Walk THEN Out(table') ELSE ""
+                 /\ UNCHANGED <<mode, q>>
+CanMove(u, v) == u # v /\ (\E s \in TS : table[<<u, s>>] # Absent) /\ (\A s \in TS : table[<<v, s>>] = Absent)
+
 \* -simulate builds every successor before it picks one; a walk therefore draws the cell and the value
 \* itself (RandomElement follows -seed) so that Out is evaluated once per step, not once per successor
 Next == IF Walk
-        THEN LET c == RandomElement(Cells) IN SetCell(c, RandomElement((Perms \cup {Absent}) \ {table[c]}))
+        THEN LET c == RandomElement(Cells)
+                 k == RandomElement(IF q >= 0 THEN 1..4 ELSE {})
+                 u == RandomElement(IF q >= 0 THEN Users ELSE {})
+                 v == RandomElement(IF q >= 0 THEN Users \ {u} ELSE {})
+             IN IF k = 1 /\ CanMove(u, v) THEN MoveRow(u, v)
+                ELSE SetCell(c, RandomElement((Perms \cup {Absent}) \ {table[c]}))
         ELSE \E c \in Cells, p \in Perms \cup {Absent} : SetCell(c, p)
 Spec == Init /\ [][Next]_vars
 
